@@ -30,6 +30,8 @@ FIXED = {  # subject prefix (without "fix: ") -> property
  "a merged interface is named for the highest version": "C03",
  "a used interface without an id is aliased": "C08",
  "type exports of interface type are merged": "C09",
+ "do not panic in Package::from_bytes on a core module type": "C08",
+ "world include renames a name that is both imported and exported": "C05",
 }
 out = []
 log = subprocess.run(["git", "-C", "/repo", "log", "--reverse", "--format=%h%x00%s%x00%b%x01", BASE + "..HEAD"],
